@@ -10,6 +10,7 @@ CONSTANTS
   MaxDup = 1
   SubmitUntil = 1
   OneDeepMemory = TRUE
+  MaxPings = 0
 INVARIANTS ConcludeOnceI
 CONSTRAINT NotBrokenI
 CHECK_DEADLOCK FALSE
